@@ -79,6 +79,15 @@ fn account(rep: &mut RunReport, out: &EvalOut, plan: &EvalPlan) {
     for (k, n) in out.probes.iter() {
         *rep.probes.entry(k).or_insert(0) += n;
     }
+    *rep.probes.entry(match plan.policy {
+        Policy::Uniform => "policy_uniform",
+        Policy::Sequential => "policy_sequential",
+        Policy::Eager => "policy_eager",
+        Policy::Lifo => "policy_lifo",
+        Policy::LateAcks => "policy_late_acks",
+        Policy::PyRunner => "policy_pyrunner",
+        Policy::Pct => "policy_pct",
+    }).or_insert(0) += 1;
     rep.interleaving_digests.push(out.decisions_digest);
     // shape digest: graph shape, history shape, disposition vector
     let mut h = 0u64;
